@@ -293,7 +293,7 @@ def mergeModules (head tail : Module) : Except Err (Option Module) :=
     | .ok m2 => if !m2.isComplete then .ok none else .ok (some m2)
 
 /-- the last step of `combine_modules`: a single-KR module following the merged trans-AT module
-    is taken in as well.  Models the code *with* fixes/D25_combine_kr_after_end.patch (the
+    is taken in as well.  Models the code *with* fixes/D33_combine_kr_after_end.patch (the
     `is_terminated` guard).  `curRest` is `current.modules` after the tail was popped. -/
 def absorbTrailingKr (m2 : Module) (curRest : List Module) : Except Err (Module × List Module) :=
   match curRest with
